@@ -29,6 +29,7 @@ pub fn run(name : &str, ctx : &Ctx, out : &mut Out) -> bool
         "replay" => hist::replay(ctx, out),
         "memsys_selftest" => selftest::memsys_vs_real(ctx, out),
         "c17_contradiction" => hist::contradiction(ctx, out),
+        "c17_kill" => hist::contradiction_after_kill(ctx, out),
         "c10_clean_build" => hist::clean_build(ctx, out),
         "swap" => hist::swap(ctx, out),
         "epoch" => hist::epoch(ctx, out),
